@@ -403,6 +403,15 @@ func runC07(r *Report, rng *rand.Rand, thorough bool) {
 		}
 		schemas = append(schemas, fs)
 	}
+	// a fourth fixed schema: every member required and readOnly (what disable-required-readonly-as-pointer is about):
+	// the all-zero instance keeps every member
+	{
+		fs := mSchema{Name: "MAll3"}
+		for j, k := range kinds {
+			fs.Fields = append(fs.Fields, mField{Name: fmt.Sprintf("f%d", j), Kind: k, Required: true, RO: true})
+		}
+		schemas = append(schemas, fs)
+	}
 	for i := 0; i < nSchemas; i++ {
 		s := mSchema{Name: fmt.Sprintf("M%d", i), Addl: []string{"", "", "any", "string", "int", "array", "object", "map"}[rng.Intn(8)]}
 		n := 1 + rng.Intn(5)
